@@ -163,11 +163,21 @@ func Match(pat, s string) bool {
 	return re.MatchString(s)
 }
 
+// MatchAtom matches a pattern against a normalised atom. Polarity is part of
+// the atom: a pattern that does not start with "!" never matches a negated
+// atom, even when it starts with a wildcard.
+func MatchAtom(pat, atom string) bool {
+	if strings.HasPrefix(atom, "!") != strings.HasPrefix(pat, "!") {
+		return false
+	}
+	return Match(pat, atom)
+}
+
 // HasFact reports whether some fact matches the glob pattern.
 func HasFact(fs []Fact, pat string) bool {
 	for _, alt := range strings.Split(pat, " || ") {
 		for _, f := range fs {
-			if Match(alt, f.Atom) {
+			if MatchAtom(alt, f.Atom) {
 				return true
 			}
 		}
@@ -184,7 +194,7 @@ func NePat(a, b string) string { return "!eq(" + a + "," + b + ") || !eq(" + b +
 // FindFact returns the first fact matching the pattern.
 func FindFact(fs []Fact, pat string) *Fact {
 	for i := range fs {
-		if Match(pat, fs[i].Atom) {
+		if MatchAtom(pat, fs[i].Atom) {
 			return &fs[i]
 		}
 	}
@@ -236,7 +246,7 @@ func EveryPathFromHas(start, target *ssa.BasicBlock, pats ...string) (ok bool, t
 		for _, a := range CondAtoms(ifi.Cond, pol) {
 			for _, p := range pats {
 				for _, alt := range strings.Split(p, " || ") {
-					if Match(alt, a) {
+					if MatchAtom(alt, a) {
 						return true
 					}
 				}
